@@ -2110,6 +2110,37 @@ fn main() {
             other => run.machinery(format!("syncx fragment failed: {:?}", other)),
         }
     }
+    // C16 completeness: the corruption enumerator (integx) is merged in
+    let mut completeness = Value::Null;
+    if prop == "C16" && std::env::var("VKIT_FRAGMENT").is_err() {
+        let frag = wd.path().join("integx-fragment.json");
+        let integx = std::env::current_exe().unwrap().with_file_name("integx");
+        let st = std::process::Command::new(&integx)
+            .args(["--prop", &prop, "--tier", args.tier.as_str()])
+            .env("VKIT_FRAGMENT", &frag)
+            .env_remove("VKIT_WORKER")
+            .env_remove("VKIT_INPUT")
+            .stdout(std::process::Stdio::null())
+            .status();
+        match st {
+            Ok(s) if s.success() => {
+                let v: Value = serde_json::from_slice(&std::fs::read(&frag).unwrap_or_default()).unwrap_or(json!({}));
+                if let Some(fs) = v["failures"].as_array() {
+                    for f in fs {
+                        run.fail_n(f["sig"].as_str().unwrap(), f["what"].as_str().unwrap(), f["witness"].clone(), f["count"].as_u64().unwrap_or(1));
+                    }
+                }
+                let c = &v["evidence"]["coverage"];
+                let evals = c["evaluations"].as_u64().unwrap_or(0);
+                transitions += evals;
+                completeness = json!({"evaluations": evals, "distinct_nontrivial": c["distinct_nontrivial"], "exhaustive": c["exhaustive"], "rule": c["rule"], "in_scope_regions": c["in_scope_regions"], "out_of_scope_observations": c["out_of_scope_observations"], "accounts": c["accounts"]});
+                if evals == 0 {
+                    run.machinery("vacuous: integx evaluated no corruption");
+                }
+            }
+            other => run.machinery(format!("integx fragment failed: {:?}", other)),
+        }
+    }
     run.assume("state abstraction: model contents + per-folder log length; random identifiers are not part of the key");
     run.assume("cryptographic primitives, SQLite and the OS file system are trusted base");
     let mut cov = Map::new();
@@ -2122,6 +2153,9 @@ fn main() {
     cov.insert("profile".into(), json!(p));
     cov.insert("folder_api_id_reuse_sequences".into(), json!(folder_api_cases));
     cov.insert("merge_worlds_(sync_engine_by_product)".into(), merge_worlds);
+    if prop == "C16" {
+        cov.insert("completeness_(corruption_enumerator_integx)".into(), completeness);
+    }
     cov.insert("configurations".into(), json!(per_cfg));
     cov.insert("operations_by_kind".into(), json!(op_kinds));
     cov.insert("oracle_counters".into(), json!(counters_total));
